@@ -144,6 +144,9 @@ type Issuer struct {
 	Key     string `json:"key"`
 	CRLSign bool   `json:"crlSign"`
 	CanSign bool   `json:"canSign"`
+	// By: empty = the signer is self-signed; one name = the signer is an intermediate / cross-signed
+	// CA issued under that (different) name by another key
+	By []Name `json:"by"`
 }
 
 type builtIssuer struct {
@@ -184,7 +187,11 @@ func buildIssuer1(i Issuer) (*builtIssuer, error) {
 	}
 	tmpl := &stdx509.Certificate{SerialNumber: big.NewInt(2000), RawSubject: StdRDN(i.Subject),
 		NotBefore: T2000, NotAfter: T2000.AddDate(60, 0, 0), ExtraExtensions: exts}
-	der, err := stdx509.CreateCertificate(rand.Reader, tmpl, tmpl, k.StdPub, k.StdPriv)
+	parent, signKey := tmpl, k.StdPriv
+	if len(i.By) > 0 {
+		parent, signKey = &stdx509.Certificate{RawSubject: StdRDN(i.By[0])}, KeyFor("root", i.Key).StdPriv
+	}
+	der, err := stdx509.CreateCertificate(rand.Reader, tmpl, parent, k.StdPub, signKey)
 	if err != nil {
 		return nil, fmt.Errorf("standard library could not create the issuer: %v", err)
 	}
@@ -199,6 +206,13 @@ func buildIssuer1(i Issuer) (*builtIssuer, error) {
 	if nameCanon(generic(ProjectZName(z.Subject))) != nameCanon(generic(i.Subject.Norm())) || Hex(z.SubjectKeyId) != i.SKID ||
 		(z.KeyUsage&zx509.KeyUsageCRLSign != 0) != i.CRLSign || (z.BasicConstraintsValid && z.IsCA) != i.CanSign {
 		return nil, fmt.Errorf("issuer %s was not concretised faithfully", canon(i))
+	}
+	wantIss := i.Subject
+	if len(i.By) > 0 {
+		wantIss = i.By[0]
+	}
+	if nameCanon(generic(ProjectZName(z.Issuer))) != nameCanon(generic(wantIss.Norm())) || bytes.Equal(z.RawIssuer, z.RawSubject) != (len(i.By) == 0) {
+		return nil, fmt.Errorf("issuer %s: the signer's own issuer name was not concretised faithfully", canon(i))
 	}
 	return &builtIssuer{z, s, k}, nil
 }
@@ -326,7 +340,7 @@ func RunRL(t RLTemplate) (*Result, error) {
 	oids, raws := extProj(p.Extensions, map[string]bool{oidAKID: true, oidCRLNumber: true})
 	val := map[string]any{"issuer": ProjectZName(p.Issuer), "thisUpdate": tu, "nextUpdate": nu, "number": SerialHex(p.Number),
 		"entries": ents, "akid": akid, "extOids": oids, "rawExts": raws, "sigAlg": p.SignatureAlgorithm.String(),
-		"sigOK": sigResult(p.CheckSignatureFrom(iss.z))}
+		"sigOK": sigResult(p.CheckSignatureFrom(iss.z)), "issuerIsSignerSubject": bytes.Equal(p.RawIssuer, iss.z.RawSubject)}
 	r := &Result{DER: der, Obs: Obs{Outcome: "ok", Val: val}}
 	r.StdObs, r.StdErr = stdRLObs(der, iss.std, true)
 	return r, nil
